@@ -3,6 +3,7 @@
 cd "$(dirname "$0")/.."
 for d in seeded/*; do
   sid=$(basename $d); cid=${sid:0:3}; [ -f $d/check ] && cid=$(cat $d/check)
+  [ -f $d/neutralised ] && { echo "$sid: NEUTRALISED by fix $(cat $d/neutralised) (behaviour-preserving on the current tree)"; continue; }
   out=$(tools/run_on_seed.sh $sid $cid 2>&1)
   if echo "$out" | grep -q "^VIOLATION"; then echo "$sid: CAUGHT  $(echo "$out" | grep violated | head -1 | cut -c1-120)"; else echo "$sid: MISSED  $(echo "$out" | tail -2 | tr '\n' ' ' | cut -c1-160)"; fi
 done
